@@ -293,6 +293,7 @@ theorem burnDeposits_total {s : State} {pid : Nat} (hb : s.gov = sumAmt s.deps) 
 theorem dropInactive_inv {s s' : State} {pid : Nat} (hsh : inactiveSettleShapeOk = true) (hi : Inv s)
     (h : dropInactive pid s = .ok s') : Inv s' := by
   unfold dropInactive at h
+  simp only [refundRun_eq, burnRun_eq] at h
   split at h
   · cases h
   · rename_i p hp
@@ -355,6 +356,7 @@ theorem finishTally_inv {s s' : State} {pid : Nat} {p : Proposal} {passes burn :
     (hsh : settleShapeOk = true) (hc : execInCacheCtx = true)
     (hi : Inv s) (hp : findProp s.props pid = some p) (h : finishTally passes burn res p pid s = .ok s') : Inv s' := by
   unfold finishTally at h
+  simp only [refundRun_eq, burnRun_eq] at h
   simp only [hsh, Bool.not_true, Bool.false_and, Bool.false_eq_true, if_false] at h
   · have hpid : p.id = pid := findProp_id hp
     simp only [hsh, if_true] at h
